@@ -27,6 +27,15 @@ pub mod codec;
 pub fn run(prop: &str, leg: &str, ctx: &Ctx, rep: &mut Report) -> bool {
     match (prop, leg) {
         ("selftest", _) => crate::selftest::run(ctx, rep),
+        ("fixture", "fuzz-pks") => {
+            use crate::fv::{Fv, F1024, F512};
+            let pk5 = F512::pk_to_bytes(&F512::keygen(crate::util::counter_seed(7)).1);
+            let pk10 = F1024::pk_to_bytes(&F1024::keygen(crate::util::counter_seed(7)).1);
+            println!("// public keys (counter seed 7) for the fuzz target: avoids key generation inside the fuzzer");
+            println!("pub const PK512: [u8; 897] = {:?};", pk5);
+            println!("pub const PK1024: [u8; 1793] = {:?};", pk10);
+            rep.evaluations += 1;
+        }
         ("fixture", "miri-key512") => {
             use crate::fv::{Fv, F512};
             let (sk, pk) = F512::keygen(crate::util::counter_seed(7));
